@@ -497,9 +497,29 @@ def translate_opcodes(repo, names):
 
 
 
+CONSTS = {}
+
+
+def collect_consts(*sources):
+    """`const NAME: T = value;` (also `pub`/`pub(crate)` and `static`) of the given source texts, for resolving named constants"""
+    for src in sources:
+        for m in re.finditer(r'(?:pub(?:\([^)]*\))?\s+)?(?:const|static)\s+([A-Z_][A-Z0-9_]*)\s*:\s*[^=;]+=\s*([^;]+);', src):
+            CONSTS[m.group(1)] = m.group(2).strip()
+
+
+def resolve(txt, depth=0):
+    t = txt.strip()
+    t = re.sub(r'^(?:Self|self|crate|super)(?:::\w+)*::(?=[A-Z_][A-Z0-9_]*$)', '', t)
+    if depth < 5 and re.fullmatch(r'[A-Z_][A-Z0-9_]*', t) and t in CONSTS:
+        return resolve(CONSTS[t], depth + 1)
+    t = re.sub(r'\s+as\s+\w+$', '', t)
+    t = re.sub(r'(?<=[0-9a-fA-F])_?(?:u8|u16|u32|u64|usize|i8|i16|i32|i64|isize|f32|f64)$', '', t)
+    return t
+
+
 def f64_bits(txt):
     import struct
-    t = txt.strip()
+    t = resolve(txt)
     special = {'f64::MAX': 0x7FEFFFFFFFFFFFFF, 'f64::MIN': 0xFFEFFFFFFFFFFFFF, 'f64::INFINITY': 0x7FF0000000000000,
                'f64::NEG_INFINITY': 0xFFF0000000000000, 'f64::NAN': 0x7FF8000000000000}
     if t in special:
@@ -510,8 +530,8 @@ def f64_bits(txt):
         raise TranslateError('not a float literal: %r' % txt)
 
 
-def int_const(txt, bits):
-    t = txt.strip().replace('_', '')
+def int_const(txt, bits=64):
+    t = resolve(txt).replace('_', '')
     table = {'i32::MAX': 2**31 - 1, 'i32::MIN': -2**31, 'i64::MAX': 2**63 - 1, 'i64::MIN': -2**63}
     if t in table:
         return table[t]
@@ -548,8 +568,9 @@ def translate_consts(repo, names):
     for k in ('min_opcodes', 'max_opcodes', 'mutation_rate', 'unsafe_mutations', 'allow_ext_opcodes', 'allow_buffer_opcodes'):
         if k not in fields:
             raise TranslateError('Default for Generator: field %s missing' % k)
-    out.append("Definition gen_default_min : N := %d." % int(fields['min_opcodes']))
-    out.append("Definition gen_default_max : N := %d." % int(fields['max_opcodes']))
+    collect_consts(src, rd('src/cli.rs'), rd('src/mutators/boundary.rs'))
+    out.append("Definition gen_default_min : N := %d." % int_const(fields['min_opcodes']))
+    out.append("Definition gen_default_max : N := %d." % int_const(fields['max_opcodes']))
     out.append("Definition gen_default_rate : N := %d." % f64_bits(fields['mutation_rate']))
     out.append("Definition gen_default_flags : list bool := [%s]." % '; '.join(
         fields[k] for k in ('unsafe_mutations', 'allow_ext_opcodes', 'allow_buffer_opcodes')))
@@ -561,13 +582,13 @@ def translate_consts(repo, names):
         mm = re.search(r'#\[arg\(([^\]]*)\)\]\s*pub\s+%s\s*:' % field, cli, re.S)
         if not mm:
             raise TranslateError('cli.rs: field %s not found' % field)
-        dv = re.search(r'default_value_t\s*=\s*([0-9_.]+)', mm.group(1))
+        dv = re.search(r'default_value_t\s*=\s*([0-9A-Za-z_.:]+)', mm.group(1))
         if not dv:
             raise TranslateError('cli.rs: %s has no default_value_t' % field)
-        return dv.group(1).replace('_', '')
-    out.append("Definition cli_default_min : N := %d." % int(clap_default('min_opcodes')))
-    out.append("Definition cli_default_max : N := %d." % int(clap_default('max_opcodes')))
-    out.append("Definition cli_default_samples : N := %d." % int(clap_default('samples')))
+        return resolve(dv.group(1)).replace('_', '')
+    out.append("Definition cli_default_min : N := %d." % int_const(clap_default('min_opcodes')))
+    out.append("Definition cli_default_max : N := %d." % int_const(clap_default('max_opcodes')))
+    out.append("Definition cli_default_samples : N := %d." % int_const(clap_default('samples')))
     out.append("Definition cli_default_rate : N := %d." % f64_bits(clap_default('mutation_rate')))
     # all_mutators
     mm = rd('src/mutators/mod.rs').split('#[cfg(test)]')[0]
